@@ -835,7 +835,7 @@ def _explore_worker(job):
             if ov and not d["overlapped"]:
                 d["overlapped"] = True
         # executions that deadlock / never finish / crash are slow and each one is already a finding
-        return sum(v for k, v in stats["outcomes"].items() if k != "ok") >= 40
+        return sum(v for k, v in stats["outcomes"].items() if k != "ok") >= 40 or stats["outcomes"].get("stuck", 0) >= 2
     if mode == "dfs":
         st = sched.explore(lambda ch: runner(sc, ch), arg, on_run, max_runs=cap)
         stats["truncated"] = st["truncated"]
